@@ -128,6 +128,7 @@ type Result struct {
 	Deadlock   bool
 	Livelock   bool
 	MainDone   bool // task 1 returned (a deadlock with MainDone is a goroutine leak, not a hang of the caller)
+	MainActive bool // at a step-budget stop: task 1 was runnable (still making progress), not blocked
 	Blocked    []string // description of tasks that never finished
 	Races      []Race
 	HarnessErr string // trouble in the harness itself (exit 2, never a violation)
@@ -213,6 +214,7 @@ func Run(t *testing.T, cfg Config, main func()) (res *Result) {
 			res.SimTime = time.Since(s.start)
 			res.Tasks = len(s.tasks)
 			res.MainDone = s.tasks[0].state == stDone
+			res.MainActive = s.tasks[0].state == stRunnable || s.tasks[0].state == stRunning
 			s.cleanup()
 			S = nil
 		})
